@@ -636,7 +636,13 @@ class Engine:
                     st.pc = self.simp(p_and(save, p_not(g)))
                     continue
                 old = self.access_guarded(st, br, ty, where, p_and(st.pc, g))
-                self.access(st, br, ty, where, store=ite(g, store, old))
+                # the store through this alternative only happens under its guard: its obligations (bounds, use
+                # after free, null) are raised under the guarded path condition
+                save = st.pc
+                st.pc = self.simp(p_and(save, g)) if not isinstance(p_and(save, g), bool) else p_and(save, g)
+                if st.pc is not False:
+                    self.access(st, br, ty, where, store=ite(g, store, old))
+                st.pc = save
             return None
         if not isinstance(p, Ptr):
             raise Unsupported('dereference of non-pointer %r (%s)' % (p, where))
